@@ -76,6 +76,19 @@ pub fn cases(tier: &str) -> Vec<Case> {
                 v.push(Case { white, go: format!("go wtime {} btime {} winc {} binc {} movestogo 1", x, x, y, y), limit: x, expect_timer: true, clock_case: None, fen: None });
             }
         }
+        // standard UCI `go` sub-commands the engine does not implement (searchmoves with a move list, ponder, nodes, mate,
+        // movestogo) before, between and after the clock parameters: whatever it does with them, the clock still binds
+        let first_moves: [&str; 2] = if white { ["a1a2", "a1b1"] } else { ["a8a7", "a8b8"] };
+        for &x in &[150u64, 3_000, 60_000] {
+            for other in [format!("searchmoves {} {}", first_moves[0], first_moves[1]), format!("searchmoves {}", first_moves[0]), "ponder".to_string(), "nodes 100000".to_string(), "mate 3".to_string(), "movestogo 30".to_string()] {
+                v.push(Case { white, go: format!("go {} {} {} {} {}", other, me, x, opp, x), limit: x, expect_timer: true, clock_case: None, fen: None });
+                v.push(Case { white, go: format!("go {} {} {} {} {}", other, opp, x, me, x), limit: x, expect_timer: true, clock_case: None, fen: None });
+                v.push(Case { white, go: format!("go {} {} {} {} {}", me, x, other, opp, x), limit: x, expect_timer: true, clock_case: None, fen: None });
+                v.push(Case { white, go: format!("go {} {} {} {} {}", me, x, opp, x, other), limit: x, expect_timer: true, clock_case: None, fen: None });
+                v.push(Case { white, go: format!("go {} movetime {}", other, x), limit: x, expect_timer: true, clock_case: None, fen: None });
+                v.push(Case { white, go: format!("go movetime {} {}", x, other), limit: x, expect_timer: true, clock_case: None, fen: None });
+            }
+        }
         // the budget is a matter of the clocks alone: the same bound must hold in every kind of position (in check,
         // a single reply, mate in one on the board, rich middlegame, bare kings with a pawn race)
         let g3: [u64; 7] = [0, 150, 300, 1_000, 7_500, 60_000, u64::MAX];
